@@ -136,3 +136,72 @@ def coq(out):
 
 if __name__ == "__main__":
     o = translate(); print(coq(o))
+
+
+# ---------------------------------------------------------------- levels (C18)
+LVARS = {"base": "(LVar LB)", "prefix.quantify()": "(LVar LP)", "power_ratio": "(LVar LK)", "self.magnitude": "(LVar LL)",
+         "reference": "(LVar LR)"}
+
+class LTr:
+    def __init__(self, env): self.env = dict(env)
+    def tr(self, n):
+        src = ast.unparse(n)
+        if src in self.env: return self.env[src]
+        if src in LVARS: return LVARS[src]
+        if isinstance(n, ast.Constant) and isinstance(n.value, int) and not isinstance(n.value, bool):
+            return f"(LConst {cz(n.value)})"
+        if isinstance(n, ast.Call) and isinstance(n.func, ast.Name) and n.func.id == "_mul" and len(n.args) == 2:
+            return f"(LMul {self.tr(n.args[0])} {self.tr(n.args[1])})"
+        if isinstance(n, ast.Call) and isinstance(n.func, ast.Name) and n.func.id == "_div" and len(n.args) == 2:
+            return f"(LDiv {self.tr(n.args[0])} {self.tr(n.args[1])})"
+        if isinstance(n, ast.Call) and isinstance(n.func, ast.Name) and n.func.id == "_pow" and len(n.args) == 2:
+            return f"(LPow {self.tr(n.args[0])} {self.tr(n.args[1])})"
+        if isinstance(n, ast.Call) and ast.unparse(n.func) == "math.log" and len(n.args) == 2:
+            return f"(LLog {self.tr(n.args[0])} {self.tr(n.args[1])})"
+        if isinstance(n, ast.BinOp) and isinstance(n.op, ast.Mult):
+            return f"(LMul {self.tr(n.left)} {self.tr(n.right)})"
+        if isinstance(n, ast.BinOp) and isinstance(n.op, ast.Div):
+            return f"(LDiv {self.tr(n.left)} {self.tr(n.right)})"
+        raise Untranslatable(f"level expression outside the subset: {src}")
+
+def expect_assign(fn, name, text):
+    got = ast.unparse(find_assign(fn, name))
+    if got != text:
+        raise Untranslatable(f"{fn.name}: {name} = {got} (expected {text})")
+
+def translate_level(path=SRC):
+    tree = ast.parse(open(path).read())
+    classes = {c.name: c for c in tree.body if isinstance(c, ast.ClassDef)}
+    lev = {f.name: f for f in classes["LogarithmicUnit"].body if isinstance(f, ast.FunctionDef)}["level"]
+    qua = {f.name: f for f in classes["Level"].body if isinstance(f, ast.FunctionDef)}["quantify"]
+    for f in (lev, qua): straightline(f, 0)
+    # LogarithmicUnit.level
+    expect_assign(lev, "base", "self.logarithm.base"); expect_assign(lev, "prefix", "self.logarithm.prefix")
+    expect_assign(lev, "power_ratio", "self.power_ratio")
+    expect_assign(lev, "ratio", "quantity.in_unit(self.reference.unit) / self.reference")
+    t = LTr({"ratio.magnitude": "(LDiv (LVar LQ) (LVar LR))"})
+    inv = t.tr(find_assign(lev, "inverted"))
+    mag = LTr({"inverted": inv}).tr(find_assign(lev, "magnitude"))
+    rets = [st for st in ast.walk(lev) if isinstance(st, ast.Return)]
+    if len(rets) != 1 or ast.unparse(rets[0].value) != "Level(magnitude, self)":
+        raise Untranslatable("LogarithmicUnit.level does not return Level(magnitude, self)")
+    # Level.quantify
+    expect_assign(qua, "base", "self.unit.logarithm.base"); expect_assign(qua, "prefix", "self.unit.logarithm.prefix")
+    expect_assign(qua, "power_ratio", "self.unit.power_ratio"); expect_assign(qua, "reference", "self.unit.reference")
+    ex = LTr({}).tr(find_assign(qua, "exponent"))
+    qm = LTr({"exponent": ex}).tr(find_assign(qua, "magnitude"))
+    rets = [st for st in ast.walk(qua) if isinstance(st, ast.Return)]
+    if len(rets) != 1: raise Untranslatable("Level.quantify: expected one return")
+    q = LTr({"magnitude": qm}).tr(rets[0].value)
+    # power_ratio: 2 on ROOT_POWER_DIMENSIONS else 1
+    pr = {f.name: f for f in classes["LogarithmicUnit"].body if isinstance(f, ast.FunctionDef)}["power_ratio"]
+    body = [st for st in pr.body if not (isinstance(st, ast.Expr) and isinstance(st.value, ast.Constant))]
+    if [ast.unparse(st) for st in body] != ["if self.reference.unit.dimension in ROOT_POWER_DIMENSIONS:\n    return 2", "return 1"]:
+        raise Untranslatable("power_ratio is not `2 if the reference dimension is a root-power dimension else 1`: " + repr([ast.unparse(st) for st in body]))
+    return {"level": mag, "quantify": q}
+
+def coq_level(out):
+    return "\n".join(["From Coq Require Import Reals ZArith.", "From Measured Require Import Model.LevelModel.", "",
+                      f"Definition gen_level : lexpr := {out['level']}.", f"Definition gen_quantify : lexpr := {out['quantify']}.", "",
+                      "Lemma gen_level_is_model : gen_level = level_expr.  Proof. reflexivity. Qed.",
+                      "Lemma gen_quantify_is_model : gen_quantify = quantify_expr.  Proof. reflexivity. Qed.", ""])
